@@ -1,5 +1,6 @@
 import Bardolph.Model.Lex
 import Bardolph.Proofs.LexLemmas
+import Bardolph.Proofs.VmSteps
 /-!
 # C16 — compilation depends only on the token sequence; every documented name is usable
 
@@ -296,3 +297,197 @@ example : lineTokens 1 (splitLine 99 "\"a\\\" \"b\"".toList)
     = [⟨"LITERAL_STRING", "a\" ", 1⟩, ⟨"NAME", "b", 1⟩, ⟨"ERROR", "\"", 1⟩] := by decide +kernel
 
 end Bardolph.Lex
+
+/-! ## 7. The two peephole equivalences behind "braces round a single value change nothing"
+
+`{v}` compiles to `PUSHQ v; POP d` (resp. `PUSH src; POP d`) where the bare value compiles to
+`MOVEQ v d` (resp. `MOVE src d`).  The harness normalises instruction lists with these two
+rewrites before comparing them; the lemmas say the rewrites do not change what the VM does,
+apart from the program counter (one instruction fewer).
+
+`MOVEQ` into the `unit_mode` register converts the colour registers, a `POP` there does not —
+hence `d ≠ unit_mode`.  `PUSH` of a register or variable holding `None` faults, `MOVE` copies
+the `None` — hence the hypothesis on `s.read src` (`C16_push_none_faults`). -/
+namespace Bardolph
+open Vm VmSteps
+
+theorem putVariable_pc (s : State) (n : String) (v : Val) (x : Int) :
+    ({ s with pc := x }).putVariable n v = { s.putVariable n v with pc := x } := by
+  unfold State.putVariable
+  simp only
+  repeat' split
+  all_goals first | rfl | simp_all
+
+theorem put_pc (s : State) (d : Dst) (v : Val) (x : Int) :
+    ({ s with pc := x }).put d v = { s.put d v with pc := x } := by
+  cases d with
+  | reg r => rfl
+  | var n => exact putVariable_pc s n v x
+  | loopVar l =>
+    simp only [State.put, State.putLoopVar]
+    split <;> rfl
+
+theorem put_pc_eq (s : State) (d : Dst) (v : Val) : (s.put d v).pc = s.pc := by
+  cases d with
+  | reg r => rfl
+  | var n =>
+    simp only [State.put]
+    unfold State.putVariable
+    repeat' split
+    all_goals rfl
+  | loopVar l =>
+    simp only [State.put, State.putLoopVar]
+    split <;> rfl
+
+theorem execInstr_moveq (img : Image) (s : State) (v : Val) (d : Dst) (hd : d ≠ .reg .unitMode) :
+    execInstr img s (.moveq v d) = s.put d v := by
+  cases d with
+  | reg r => cases r <;> first | exact absurd rfl hd | rfl
+  | var n => rfl
+  | loopVar l => rfl
+
+/-- the state after `PUSHQ v; POP d` resp. after `MOVEQ v d`, described explicitly -/
+theorem pushq_pop_run (img : Image) (s : State) (p : Nat) (v : Val) (d : Dst)
+    (hs : s.status = .running) (hpc : s.pc = (p : Int)) (hc : CodeAt img p [.pushq v, .pop d]) :
+    run img 2 s = if (s.put d v).status = .running then { s.put d v with pc := (p : Int) + 2 }
+      else { s.put d v with pc := (p : Int) + 1 } := by
+  have h1 := step_pushq img s p v hs hpc hc.head
+  have hi2 : img.code[p + 1]? = some (.pop d) := hc.tail.head
+  rw [show (2 : Nat) = 1 + 1 from rfl, run_add, run_one img s hs, h1]
+  rw [run_one _ _ (by simpa using hs)]
+  rw [step_pop img _ (p + 1) d v s.eval (by simpa using hs) (by simp) hi2 rfl]
+  simp only [put_pc]
+  split
+  · rw [Int.add_assoc]; rfl
+  · rfl
+
+theorem moveq_step (img : Image) (s : State) (p : Nat) (v : Val) (d : Dst)
+    (hs : s.status = .running) (hpc : s.pc = (p : Int)) (hc : CodeAt img p [.moveq v d])
+    (hd : d ≠ .reg .unitMode) :
+    step img s = if (s.put d v).status = .running then { s.put d v with pc := (p : Int) + 1 }
+      else s.put d v := by
+  rw [step_plain_gen img s p _ hs hpc hc.head (by simp) rfl, execInstr_moveq img s v d hd,
+    put_pc_eq, hpc]
+
+
+theorem push_step (img : Image) (s : State) (p : Nat) (src : Src)
+    (hs : s.status = .running) (hpc : s.pc = (p : Int)) (hi : img.code[p]? = some (.push src))
+    (hv : (∀ x, src ≠ .lit x) → s.read src ≠ .none) :
+    step img s = { s with pc := (p : Int) + 1, eval := s.read src :: s.eval } := by
+  by_cases hl : ∀ x, src ≠ .lit x
+  · exact step_push img s p src _ hs hpc hi hl rfl (hv hl)
+  · have : ∃ x, src = .lit x := by
+      cases src with
+      | lit x => exact ⟨x, rfl⟩
+      | _ => exact absurd (fun x => by simp) hl
+    obtain ⟨x, rfl⟩ := this
+    rw [step_plain img s p _ hs hpc hi (by simp) rfl]
+    · simp [execInstr, hpc, State.read]
+    · simp [execInstr, hs]
+
+theorem push_pop_run (img : Image) (s : State) (p : Nat) (src : Src) (d : Dst)
+    (hs : s.status = .running) (hpc : s.pc = (p : Int)) (hc : CodeAt img p [.push src, .pop d])
+    (hv : (∀ x, src ≠ .lit x) → s.read src ≠ .none) :
+    run img 2 s = if (s.put d (s.read src)).status = .running
+      then { s.put d (s.read src) with pc := (p : Int) + 2 }
+      else { s.put d (s.read src) with pc := (p : Int) + 1 } := by
+  have h1 := push_step img s p src hs hpc hc.head hv
+  have hi2 : img.code[p + 1]? = some (.pop d) := hc.tail.head
+  rw [show (2 : Nat) = 1 + 1 from rfl, run_add, run_one img s hs, h1]
+  rw [run_one _ _ (by simpa using hs)]
+  rw [step_pop img _ (p + 1) d (s.read src) s.eval (by simpa using hs) (by simp) hi2 rfl]
+  simp only [put_pc]
+  split
+  · rw [Int.add_assoc]; rfl
+  · rfl
+
+theorem move_step (img : Image) (s : State) (p : Nat) (src : Src) (d : Dst)
+    (hs : s.status = .running) (hpc : s.pc = (p : Int)) (hc : CodeAt img p [.move src d]) :
+    step img s = if (s.put d (s.read src)).status = .running
+      then { s.put d (s.read src) with pc := (p : Int) + 1 } else s.put d (s.read src) := by
+  rw [step_plain_gen img s p _ hs hpc hc.head (by simp) rfl]
+  simp only [execInstr, put_pc_eq, hpc]
+
+/-- `PUSH src` of a non-literal operand whose value is `None` faults -/
+theorem push_none_faults (img : Image) (s : State) (p : Nat) (src : Src)
+    (hs : s.status = .running) (hpc : s.pc = (p : Int)) (hi : img.code[p]? = some (.push src))
+    (hl : ∀ x, src ≠ .lit x) (hv : s.read src = .none) :
+    (step img s).status = .fault "pushing None onto eval stack" := by
+  have hex : execInstr img s (.push src) = s.fault "pushing None onto eval stack" := by
+    cases src with
+    | lit x => exact absurd rfl (hl x)
+    | _ => simp only [execInstr, hv]
+  rw [step_plain_gen img s p _ hs hpc hi (by simp) rfl, hex]
+  simp [State.fault]
+
+
+/-- `PUSHQ v; POP d` at `p` in one image, `MOVEQ v d` at `p` in another: after two steps resp.
+one step the machines are in the same state (`s.put d v`, including a fault raised by the
+store) except for `pc`; if the store succeeded the program counters are just past the
+respective code. -/
+theorem C16_peephole_pushq_pop (img img' : Image) (s : State) (p : Nat) (v : Val) (d : Dst)
+    (hs : s.status = .running) (hpc : s.pc = (p : Int))
+    (hc : CodeAt img p [.pushq v, .pop d]) (hc' : CodeAt img' p [.moveq v d])
+    (hd : d ≠ .reg .unitMode) :
+    { run img 2 s with pc := 0 } = { step img' s with pc := 0 } ∧
+    { step img' s with pc := 0 } = { s.put d v with pc := 0 } ∧
+    ((step img' s).status = .running →
+      (run img 2 s).pc = (p : Int) + 2 ∧ (step img' s).pc = (p : Int) + 1) := by
+  rw [pushq_pop_run img s p v d hs hpc hc, moveq_step img' s p v d hs hpc hc' hd]
+  by_cases h : (s.put d v).status = .running
+  · rw [if_pos h, if_pos h]; exact ⟨rfl, rfl, fun _ => ⟨rfl, rfl⟩⟩
+  · rw [if_neg h, if_neg h]; exact ⟨rfl, rfl, fun h' => absurd h' h⟩
+
+/-- `PUSH src; POP d` against `MOVE src d`, when the pushed value is not `None` (or `src` is a
+literal, which `PUSH` does not test) -/
+theorem C16_peephole_push_pop (img img' : Image) (s : State) (p : Nat) (src : Src) (d : Dst)
+    (hs : s.status = .running) (hpc : s.pc = (p : Int))
+    (hc : CodeAt img p [.push src, .pop d]) (hc' : CodeAt img' p [.move src d])
+    (hv : (∀ x, src ≠ .lit x) → s.read src ≠ .none) :
+    { run img 2 s with pc := 0 } = { step img' s with pc := 0 } ∧
+    { step img' s with pc := 0 } = { s.put d (s.read src) with pc := 0 } ∧
+    ((step img' s).status = .running →
+      (run img 2 s).pc = (p : Int) + 2 ∧ (step img' s).pc = (p : Int) + 1) := by
+  rw [push_pop_run img s p src d hs hpc hc hv, move_step img' s p src d hs hpc hc']
+  by_cases h : (s.put d (s.read src)).status = .running
+  · rw [if_pos h, if_pos h]; exact ⟨rfl, rfl, fun _ => ⟨rfl, rfl⟩⟩
+  · rw [if_neg h, if_neg h]; exact ⟨rfl, rfl, fun h' => absurd h' h⟩
+
+/-- why `C16_peephole_push_pop` needs its hypothesis: with `None` in a non-literal source the
+`PUSH` faults, the `MOVE` stores the `None` -/
+theorem C16_push_none_faults (img img' : Image) (s : State) (p : Nat) (src : Src) (d : Dst)
+    (hs : s.status = .running) (hpc : s.pc = (p : Int))
+    (hc : CodeAt img p [.push src, .pop d]) (hc' : CodeAt img' p [.move src d])
+    (hl : ∀ x, src ≠ .lit x) (hv : s.read src = .none) :
+    (run img 2 s).status = .fault "pushing None onto eval stack" ∧
+    { step img' s with pc := 0 } = { s.put d .none with pc := 0 } := by
+  constructor
+  · have h1 := push_none_faults img s p src hs hpc hc.head hl hv
+    rw [show (2 : Nat) = 1 + 1 from rfl, run_add, run_one img s hs,
+      run_halted _ _ _ (by rw [h1]; simp), h1]
+  · rw [move_step img' s p src d hs hpc hc', hv]
+    split <;> rfl
+
+/-! non-vacuity: concrete images and a concrete state -/
+
+example : CodeAt ⟨#[.nop, .pushq (.num 5), .pop (.reg .hue), .stop], []⟩ 1
+    [.pushq (.num 5), .pop (.reg .hue)] := CodeAt.intro [.nop] _ [.stop] []
+example : CodeAt ⟨#[.nop, .moveq (.num 5) (.reg .hue), .stop], []⟩ 1
+    [.moveq (.num 5) (.reg .hue)] := CodeAt.intro [.nop] _ [.stop] []
+
+example :
+    let s : State := { Vm.init [] with pc := 1 }
+    { run ⟨#[.nop, .pushq (.num 5), .pop (.reg .hue), .stop], []⟩ 2 s with pc := 0 }
+      = { step ⟨#[.nop, .moveq (.num 5) (.reg .hue), .stop], []⟩ s with pc := 0 } :=
+  (C16_peephole_pushq_pop _ _ _ 1 (.num 5) (.reg .hue) rfl rfl
+    (CodeAt.intro [.nop] _ [.stop] []) (CodeAt.intro [.nop] _ [.stop] []) (by decide)).1
+
+example :
+    let s : State := { Vm.init [] with pc := 1 }
+    { run ⟨#[.nop, .push (.reg .hue), .pop (.var "x"), .stop], []⟩ 2 s with pc := 0 }
+      = { step ⟨#[.nop, .move (.reg .hue) (.var "x"), .stop], []⟩ s with pc := 0 } :=
+  (C16_peephole_push_pop _ _ _ 1 (.reg .hue) (.var "x") rfl rfl
+    (CodeAt.intro [.nop] _ [.stop] []) (CodeAt.intro [.nop] _ [.stop] [])
+    (fun _ => by simp [State.read, Vm.init, initRegs])).1
+
+end Bardolph
